@@ -190,7 +190,6 @@ func waitQuiescentOrSpinning(window int) (q quiesceResult, ok bool, spinning str
 	return q, false, spinning
 }
 
-
 // vegetaSpinning samples goroutine dumps for the given window and reports whether, in every
 // sample, something was running and everything that was running (this goroutine aside) was
 // inside vegeta code, with the same goroutines each time: workers that neither park nor finish.
